@@ -319,6 +319,13 @@ def eq_values(l, r):
         if isinstance(other, (set, frozenset)):
             return wrap_bool(z3.And(*[sf.bits[m] == z3.BoolVal(m in other) for m in sf.bits]))
         return False
+    import datetime as _dt
+    if (isinstance(l, SDateTime) and isinstance(r, _dt.datetime)) or (isinstance(r, SDateTime) and isinstance(l, _dt.datetime)):
+        import calendar
+        sd, nd = (l, r) if isinstance(l, SDateTime) else (r, l)
+        if bool(sd.aware) != (nd.tzinfo is not None):
+            return False
+        return wrap_bool(z3.And(sd.secs == calendar.timegm(nd.utctimetuple()), sd.micros == nd.microsecond))
     if isinstance(l, SDateTime) and isinstance(r, SDateTime):
         if bool(l.aware) != bool(r.aware):
             return False                       # a naive and an aware datetime never compare equal
